@@ -39,7 +39,7 @@ def cnfReq (pol : Bool) : P String := do
   let E := if pol then PolCNF.stdEnv (simpOf tbl) t else CNF.stdEnv (simpOf tbl) t
   let ktbl := if pol then PolCNF.keyTable t else CNF.keyTable t
   match (if pol then PolCNF.convert E t else CNF.convert E t) with
-  | none => return "err NotImplementedError"
+  | none => return "err " ++ ((if pol then PolCNF.convertErr t else CNF.convertErr t).getD "?")
   | some cs =>
     let used := usedKeys ktbl cs
     return s!"ok {encTerm (container cs)} {encTerm (CNF.formulaOf cs)} {used.length}" ++
